@@ -470,3 +470,60 @@ func H_C20_span(container, _ int) {
 	check(vsame(f2, f), "C20.idempotent")
 	vdigest(f)
 }
+
+// H_C20_loose_after(prev, _): a LOOSE list (two items separated by a blank line,
+// bullet or ordered starting at 2 - the solver chooses) directly after another block:
+// prev 0 a paragraph, 1 an ATX heading, 2 a fenced code block, 3 a block quote, 4 the
+// paragraph of a tight bullet item (the loose list is nested in it), 5 the same inside
+// a block quote. The formatted text must keep the list apart from what precedes it.
+func H_C20_loose_after(prev, _ int) {
+	a, b := nondetByte(), nondetByte()
+	assume(isL(a))
+	assume(isL(b))
+	m1, m2 := "- ", "- "
+	if nondetBool() {
+		m1, m2 = "2. ", "3. "
+	}
+	var lines []string
+	ind := ""
+	switch prev {
+	case 0:
+		lines = append(lines, "p", "")
+	case 1:
+		lines = append(lines, "# p", "")
+	case 2:
+		lines = append(lines, "```", "p", "```", "")
+	case 3:
+		lines = append(lines, "> p", "")
+	default:
+		lines = append(lines, "- p")
+		ind = "  "
+	}
+	lines = append(lines, ind+m1+string([]byte{a}), "", ind+m2+string([]byte{b}))
+	if prev >= 4 {
+		lines = append(lines, "- q")
+	}
+	var d []byte
+	for _, l := range lines {
+		if prev == 5 {
+			if l == "" {
+				d = append(d, '>')
+			} else {
+				d = append(d, "> "...)
+			}
+		}
+		d = append(d, l...)
+		d = append(d, '\n')
+	}
+	f := formatDoc(cloneBytes(d))
+	h1 := normHTML(renderHTML(cloneBytes(d)))
+	h2 := normHTML(renderHTML(cloneBytes(f)))
+	if !vsame(h1, h2) {
+		vnote("doc=" + string(d))
+		vnote("formatted=" + string(f))
+	}
+	check(vsame(h2, h1), "C20.meaning-preserved")
+	f2 := formatDoc(cloneBytes(f))
+	check(vsame(f2, f), "C20.idempotent")
+	vdigest(f)
+}
